@@ -221,6 +221,32 @@ class MapEngine:
             else:
                 ops.append({"op": "get_qmap",
                             "feature": rng.choice(FEATURES)})
+        if rng.random() < 0.3:
+            # directed: fit and rate one curve, then one event that ends the
+            # life of that rating (rotating with the run index), then the
+            # rating map
+            from .engine_curve import gen_invalid_request
+            j = rng.randrange(10)
+            ops.append({"op": "fit", "curve": j, "prep": True,
+                        "kw": {"model_key": rng.choice(E_MODELS)}})
+            ops.append({"op": "rate", "curve": j, "kw": rng.choice(
+                [{}, {"regressor": "Decision Tree"}])})
+            ev = ["refused", "pipeline", "refit", "edit", "none"][index % 5]
+            if ev == "refused":
+                st_, o_ = gen_invalid_request(rng)
+                ops.append({"op": "prep", "curve": j, "steps": st_,
+                            "options": o_})
+            elif ev == "pipeline":
+                ops.append({"op": "prep", "curve": j, "options": None,
+                            "steps": ["compute_tip_position",
+                                      "correct_tip_offset"]})
+            elif ev == "refit":
+                ops.append({"op": "fit", "curve": j, "prep": False,
+                            "kw": {"weight_cp": 1e-6}})
+            elif ev == "edit":
+                ops.append({"op": "edit", "curve": j, "key": "gcf_k",
+                            "value": 0.5})
+            ops.append({"op": "get_qmap", "feature": "fit: rating"})
         ops.append({"op": "get_qmap", "feature": rng.choice(FEATURES)})
         subdir = rng.choice(["data", "data", "data", ".cache/data",
                              "a/.snapshot/data", "x/../data"])
